@@ -13,7 +13,7 @@ func init() {
 		Assumptions: []string{"the interval-set model (validated against a brute-force bitset by selfcheck)", "documented-panic arguments (AddRange/Flip end > 2^32) are out of domain and not generated"},
 		Units: []Unit{
 			{Name: "histories", Quick: 2600, Thorough: 150000, Run: c02Histories},
-			{Name: "ratchet", Quick: 500, Thorough: 20000, Run: c02Ratchet},
+			{Name: "ratchet", Quick: 1500, Thorough: 40000, Run: c02Ratchet},
 			{Name: "exhaustive-small-domain", ExhaustiveN: c02ExhN, RunIndexed: c02Exh},
 		},
 	})
